@@ -108,7 +108,7 @@ func (w *World) reachable() map[string]bool {
 		}
 		if strings.Contains(f.Name(), "$bound") || strings.Contains(f.Name(), "$thunk") {
 			if obj := f.Object(); obj != nil {
-				if g := byName[short(obj.(interface{ FullName() string }).FullName())]; g != nil && !seen[g] {
+				if g := byName[fnName(obj.(interface{ FullName() string }).FullName())]; g != nil && !seen[g] {
 					stack = append(stack, g)
 				}
 			}
